@@ -19,7 +19,8 @@ import (
 type ReplayCase struct {
 	UDP       bool            `json:"udp,omitempty"`
 	NoWait    bool            `json:"noWait,omitempty"`
-	What      int             `json:"what"` // 0 whole client->server stream, 1 prefix ending at a segment boundary, 2 first segment alone
+	What      int             `json:"what"` // 0 whole client->server stream, 1 prefix ending at a segment boundary, 2 first segment alone, 3 (UDP) everything but the first datagram, 4 (UDP) one datagram alone
+	Sessions  int             `json:"sessions,omitempty"` // genuine sessions multiplexed on the recorded connection / socket (default 1)
 	Boundary  int             `json:"boundary,omitempty"`
 	DelayMs   int             `json:"delayMs,omitempty"`
 	AfterEnd  bool            `json:"afterEnd,omitempty"` // the original session is closed before the replay
@@ -37,10 +38,13 @@ func genReplay(t *rapid.T) ReplayCase {
 	var c ReplayCase
 	c.UDP = rapid.Bool().Draw(t, "udp")
 	c.NoWait = rapid.Bool().Draw(t, "noWait")
-	c.What = rapid.IntRange(0, 2).Draw(t, "what")
+	c.What = rapid.IntRange(0, 4).Draw(t, "what")
+	c.Sessions = rapid.SampledFrom([]int{1, 1, 2, 3}).Draw(t, "sessions")
 	c.Boundary = rapid.IntRange(1, 8).Draw(t, "boundary")
-	c.DelayMs = rapid.SampledFrom([]int{0, 0, 1, 20, 300, 3000}).Draw(t, "delay")
-	if !pbt.Thorough() && c.DelayMs > 300 && rapid.IntRange(0, 3).Draw(t, "keepLong") != 0 {
+	// 6500 ms is longer than the server's 5 s session clean-up tick: the
+	// recorded sessions are gone from its table when the copy arrives
+	c.DelayMs = rapid.SampledFrom([]int{0, 0, 1, 20, 300, 3000, 6500}).Draw(t, "delay")
+	if !pbt.Thorough() && c.DelayMs > 300 && rapid.IntRange(0, 2).Draw(t, "keepLong") != 0 {
 		c.DelayMs = 300
 	}
 	c.AfterEnd = rapid.Bool().Draw(t, "afterEnd")
@@ -62,6 +66,13 @@ func genReplay(t *rapid.T) ReplayCase {
 
 func propReplay(c ReplayCase) (o pbt.Outcome) {
 	cfg := e2e.Config{UDP: c.UDP, NoWait: c.NoWait, ClientPattern: c.ClientPat, ServerPattern: c.ServerPat}
+	nSess := c.Sessions
+	if nSess < 1 {
+		nSess = 1
+	}
+	if nSess > 1 {
+		cfg.Multiplex = 4
+	}
 	sn := simnet.NewStreamNet(simnet.StreamOpts{Record: true})
 	pn := simnet.NewPacketNet()
 	tStart := time.Now()
@@ -72,12 +83,17 @@ func propReplay(c ReplayCase) (o pbt.Outcome) {
 	}
 	defer env.StopBounded(3 * time.Second)
 	// the genuine, recorded session
-	res := e2e.RunTransfer(env, []e2e.SessProg{{Up: e2e.DirProg{Writes: c.Up}, Down: e2e.DirProg{Writes: c.Down}}},
+	var progs []e2e.SessProg
+	for i := 0; i < nSess; i++ {
+		progs = append(progs, e2e.SessProg{Up: e2e.DirProg{Writes: c.Up}, Down: e2e.DirProg{Writes: c.Down}})
+	}
+	res := e2e.RunTransfer(env, progs,
 		e2e.TransferOpts{Salt: c.Salt, StallAfter: 20 * time.Second, MaxWall: 40 * time.Second, KeepOpen: !c.AfterEnd})
-	s0 := res.Sessions[0]
-	if s0.OpenErr != "" || !s0.Up.DoneReading || !s0.Down.DoneReading {
-		o.Inconclusive = "the genuine session did not complete"
-		return
+	for _, s0 := range res.Sessions {
+		if s0.OpenErr != "" || !s0.Up.DoneReading || !s0.Down.DoneReading {
+			o.Inconclusive = "the genuine sessions did not complete"
+			return
+		}
 	}
 	if c.AfterEnd {
 		time.Sleep(5 * time.Millisecond)
@@ -139,6 +155,13 @@ func propReplay(c ReplayCase) (o pbt.Outcome) {
 			udpCopy = udpCopy[:k]
 		case 2:
 			udpCopy = udpCopy[:1]
+		case 3:
+			if len(udpCopy) > 1 {
+				udpCopy = udpCopy[1:]
+			}
+		case 4:
+			k := c.Boundary % len(udpCopy)
+			udpCopy = udpCopy[k : k+1]
 		}
 	}
 	if c.DelayMs > 0 {
@@ -225,6 +248,8 @@ func propReplay(c ReplayCase) (o pbt.Outcome) {
 	o.Label("udp=%v", c.UDP)
 	o.Label("what=%d", c.What)
 	o.Label("afterEnd=%v", c.AfterEnd)
+	o.Label("sessions=%d", nSess)
+	o.Label("afterCleanup=%v", c.AfterEnd && c.DelayMs > 5000)
 	o.Label("fresh=%v", c.Fresh)
 	o.Label("delay>=300=%v", c.DelayMs >= 300)
 	return
